@@ -15,6 +15,11 @@ Judge   tla/JudgeIntersect.tla decides every record.
 from __future__ import annotations
 
 import math
+import os
+
+# fast_constant_lat_intersections is a numba prange kernel: with the default 16 threads per replay process a call on a
+# 50-edge grid costs ~0.1 s of thread wake-ups on a shared machine; two threads keep the parallel code path and cost ~1 ms
+os.environ.setdefault("NUMBA_NUM_THREADS", "2")
 import random
 import zlib
 from collections import Counter
